@@ -96,6 +96,20 @@ type Loc struct {
 	path []pathStep
 	typ  types.Type // Go type stored at the location
 	obj  Term       // for object locations: the Ref
+	sl   Term       // slice element locations: the slice value
+	si   Term       // ... and the index (reads go through the at! function to give quantifiers clean triggers)
+}
+
+// atFun declares the element-read function of an element heap: at!S(E, s, i) = E[base s][off s + i].
+func (ft *FT) atFun(key string) string {
+	hs := ft.heaps[key].sort
+	es := strings.TrimSuffix(strings.TrimPrefix(hs, "(Array Int (Array Int "), "))")
+	name := "at!" + strings.TrimPrefix(key, "E!")
+	if !ft.d.have["fun "+name] {
+		ft.d.fun(name, []Sort{hs, "Slice", "Int"}, es)
+		ft.d.axiom("def "+name, fmt.Sprintf("(forall ((E %s) (s Slice) (i Int)) (! (= (%s E s i) (select (select E (sl-base s)) (+ (sl-off s) i))) :pattern ((%s E s i))))", hs, q(name), q(name)))
+	}
+	return q(name)
 }
 
 func (ft *FT) loadPath(root Term, path []pathStep) Term {
@@ -161,6 +175,9 @@ func (ft *FT) load(st *State, l *Loc) Term {
 			args = append(args, sel(ft.get(st, k), l.obj))
 		}
 		return ft.loadPath(app(q("mk!"+sname), args...), l.path)
+	}
+	if l.sl != "" {
+		return ft.loadPath(app(ft.atFun(l.key), ft.get(st, l.key), l.sl, l.si), l.path)
 	}
 	root := sel(ft.get(st, l.key), l.idx...)
 	return ft.loadPath(root, l.path)
